@@ -8,7 +8,8 @@ from props import rt
 PID = "C06"
 LEVEL = "proof"
 MODULE = "Sigc.Props.C06"
-REQUIRED = []
+EXTRA_MODULES = ("Sigc.Props.Refine", "Sigc.Props.SpecK",)   # refinement P ⊑ S', S' ≡ S on runs clear of the known findings
+REQUIRED = ["Sigc.Refine.refines", "Sigc.SpecK.model_refines_pure_spec"]
 TRUSTED = rt.TRUSTED_RT
 ASSUMPTIONS = rt.ASSUMPTIONS_RT + []
 PARTIAL = []
